@@ -413,6 +413,114 @@ theorem handshake_split_refines (s : RPState UInt8) (hs : s.cur = none)
     · exact hcut
     · exact hfinal
 
+/-! ### the other fragmentable content type: heartbeat (application data always parses; CCS / alert are never buffered) -/
+
+/-- a heartbeat payload is cut short: fewer than the 3 header bytes, or fewer than 3 + payload_length bytes while the
+    length the (pseudo-)header states is at least 3 (with a stated length below 3 the parser answers `Verify`, which is
+    not a fragment: that is how the code is written, and the `as u16` of the pseudo header is part of it) -/
+def heartbeatCut (stated : Nat) (x : List UInt8) : Prop :=
+  x.length < 3 ∨ (3 ≤ stated ∧ x.length < 3 + beVal ((x.drop 1).take 2))
+
+theorem heartbeat_cut_fragLike (hdr : RecordHeader) (hh : hdr.recordType = 0x18) (x : List UInt8)
+    (hc : heartbeatCut hdr.len x) : fragLike (parseRecordWithHeader hdr x) = true := by
+  have h18 : parseRecordWithHeader hdr x = complete (parseMessageHeartbeat hdr.len) x := by
+    simp [parseRecordWithHeader, hh]
+  rw [h18]
+  unfold complete parseMessageHeartbeat
+  rcases beU_cases 1 x with ⟨h1, e1⟩ | ⟨h1, e1⟩
+  · rw [e1, Res.bind_ok]
+    rcases beU_cases 2 (x.drop 1) with ⟨h2, e2⟩ | ⟨h2, e2⟩
+    · rw [e2, Res.bind_ok]
+      have h3 : 3 ≤ x.length := by rw [List.length_drop] at h2; omega
+      rcases hc with hc | ⟨hst, hc⟩
+      · omega
+      · have hnot : ¬ hdr.len < 3 := by omega
+        simp only [hnot, if_false]
+        have hl : ((x.drop 1).drop 2).length = x.length - 3 := by rw [List.length_drop, List.length_drop]; omega
+        have : ((x.drop 1).drop 2).length < beVal ((x.drop 1).take 2) := by rw [hl]; omega
+        rw [take_of_gt this]; rfl
+    · rw [e2]; rfl
+  · rw [e1]; rfl
+
+/-- continuation hypotheses from heartbeat cuts; the stated length of the pseudo header is the accumulated length `% 65536` -/
+theorem contHyp_of_heartbeat_cuts (acc : List UInt8) (rs : List (RawRecord UInt8)) (last : RawRecord UInt8) (rem : List UInt8)
+    (v : List (Message UInt8))
+    (ht : ∀ r ∈ rs ++ [last], r.hdr.recordType = 0x18)
+    (hcap : acc.length + ((rs ++ [last]).map (·.data.length)).sum < maxRecordData)
+    (hcut : ∀ k, k < rs.length →
+      heartbeatCut ((acc ++ ((rs.take (k + 1)).map (·.data)).flatten).length % 65536) (acc ++ ((rs.take (k + 1)).map (·.data)).flatten))
+    (hfinal : parseRecordWithHeader (pseudoHdr last.hdr (acc ++ ((rs ++ [last]).map (·.data)).flatten))
+                (acc ++ ((rs ++ [last]).map (·.data)).flatten) = .ok rem v) :
+    ContHyp parseRecordWithHeader 0x18 acc rs last (.ok rem v) := by
+  induction rs generalizing acc with
+  | nil =>
+    simp only [ContHyp, copyInto_uint8]
+    refine ⟨ht last (by simp), by simpa using hcap, ?_⟩
+    simpa using hfinal
+  | cons r rs ih =>
+    simp only [ContHyp, copyInto_uint8]
+    have htr : r.hdr.recordType = 0x18 := ht r (by simp)
+    refine ⟨htr, ?_, ?_, ?_⟩
+    · simp only [List.cons_append, List.map_cons, List.sum_cons] at hcap; omega
+    · have := hcut 0 (by simp)
+      simp only [List.take_succ_cons, List.take_zero, List.map_cons, List.map_nil, List.flatten_cons, List.flatten_nil, List.append_nil] at this
+      exact heartbeat_cut_fragLike _ (by simp [pseudoHdr, htr]) _ (by simpa [pseudoHdr] using this)
+    · apply ih
+      · intro x hx; exact ht x (by rw [List.cons_append]; exact List.mem_cons_of_mem _ hx)
+      · simp only [List.cons_append, List.map_cons, List.sum_cons, List.length_append] at hcap ⊢
+        omega
+      · intro k hk
+        have := hcut (k + 1) (by simp; omega)
+        simpa [List.take_succ_cons, List.append_assoc] using this
+      · simpa [List.append_assoc] using hfinal
+
+/-- **C07 for heartbeat payloads, end to end** (plain bytes): a heartbeat record payload split into `1 + rs.length + 1`
+    records such that every proper prefix is still cut (fewer than 3 + payload_length bytes; the first record states a
+    length of at least 3 once it holds the 3 header bytes, later prefixes have their accumulated length `% 65536 ≥ 3`):
+    every call but the last answers Incomplete with defragmentation in progress, the last returns what the one-shot
+    parser returns on the unsplit payload under the pseudo header and ends defragmentation. -/
+theorem heartbeat_split_refines (s : RPState UInt8) (hs : s.cur = none)
+    (first : RawRecord UInt8) (rs : List (RawRecord UInt8)) (last : RawRecord UInt8) (rem : List UInt8) (v : List (Message UInt8))
+    (ht : ∀ r ∈ first :: (rs ++ [last]), r.hdr.recordType = 0x18)
+    (hcap : ((first :: (rs ++ [last])).map (·.data.length)).sum < maxRecordData)
+    (hcut1 : heartbeatCut first.hdr.len first.data)
+    (hcut : ∀ k, k < rs.length →
+      heartbeatCut ((first.data ++ ((rs.take (k + 1)).map (·.data)).flatten).length % 65536)
+        (first.data ++ ((rs.take (k + 1)).map (·.data)).flatten))
+    (hfinal : parseRecordWithHeader (pseudoHdr last.hdr (first.data ++ ((rs ++ [last]).map (·.data)).flatten))
+                (first.data ++ ((rs ++ [last]).map (·.data)).flatten) = .ok rem v) :
+    ∃ outs, (rpRun parseRecordWithHeader s (.parse first :: (rs.map .parse ++ [.parse last]))).2
+        = some (.incomplete .unknown) :: (outs ++ [some (.ok rem v)]) ∧
+      outs.length = rs.length ∧ (∀ o ∈ outs, ∃ r, o = some r ∧ r.isIncomplete = true) ∧
+      (rpRun parseRecordWithHeader s (.parse first :: (rs.map .parse ++ [.parse last]))).1.inProgress = false := by
+  have ht1 : first.hdr.recordType = 0x18 := ht first (by simp)
+  apply accumulate_then_parse parseRecordWithHeader s hs first rs last rem v
+  · simp [noDefrag, ht1]
+  · exact heartbeat_cut_fragLike _ ht1 _ hcut1
+  · rw [ht1, copyInto_uint8]
+    apply contHyp_of_heartbeat_cuts
+    · intro r hr; exact ht r (List.mem_cons_of_mem _ hr)
+    · simp only [List.map_cons, List.sum_cons] at hcap; exact hcap
+    · exact hcut
+    · exact hfinal
+
+/-- application data never fragments: whatever the bytes, the one-shot parser succeeds, so `parse_record` answers at once
+    from the caller's record (fast path) -/
+theorem appdata_never_fragments (s : RPState β) (hs : s.inProgress = false) (r : RawRecord β) (hh : r.hdr.recordType = 0x17) :
+    rpParse parseRecordWithHeader s r = (s, .ok [] [.applicationData r.data]) := by
+  apply fast_path parseRecordWithHeader s r hs
+  simp [parseRecordWithHeader, hh, mapP, parseMessageAppData, Res.map]
+
+/-! ### non-vacuity: a heartbeat message (type 1, payload 2 bytes, 1 byte of padding) split 2 + 4 bytes -/
+example : (rpRun (β := Fin 256) parseRecordWithHeader RPState.init
+    [.parse ⟨⟨24, 771, 6⟩, [1, 0]⟩, .parse ⟨⟨24, 771, 4⟩, [2, 9, 9, 7]⟩]).2
+    = [some (.incomplete .unknown), some (.ok [7] [.heartbeat 1 2 [9, 9]])] := by decide +kernel
+
+/-- … and the corner the hypothesis excludes: a first fragment that holds the header but *states* a length below 3 is
+    answered with the parser's `Verify` error, not buffered -/
+example : (rpRun (β := Fin 256) parseRecordWithHeader RPState.init
+    [.parse ⟨⟨24, 771, 2⟩, [1, 0, 2]⟩]).2 = [some (.error .Verify)] := by decide +kernel
+
 /-! ### non-vacuity: a ServerHelloDone message split inside its 4-byte header (2 + 2 bytes) -/
 example : (rpRun (β := Fin 256) parseRecordWithHeader RPState.init
     [.parse ⟨⟨22, 771, 2⟩, [14, 0]⟩, .parse ⟨⟨22, 771, 2⟩, [0, 0]⟩]).2
